@@ -667,6 +667,7 @@ def run(ck: core.Check):
     lean_used: list[list[int]] = []
     read_profile = collections.Counter()
     hist_dims = collections.Counter()
+    hist_mut = collections.Counter()
     variant_hist = collections.Counter()
     for pi, (prog, origin) in enumerate(programs):
         bad = L.check_wellformed(prog) + L.typecheck(prog)
@@ -850,6 +851,9 @@ def run(ck: core.Check):
             stats["emitted_nodes"] += es["nodes"]
             stats["emitted_graphs"] += es["graphs"]
             if R is not None:
+                stats["caller_owned_containers"] += getattr(R, "owned", 0)
+                for mk_, mv_ in getattr(R, "mutations", {}).items():
+                    hist_mut[mk_] += mv_
                 for k, dd in R.created_in.items():
                     ed = es["depth_of"].get(k)
                     if ed is not None and prog["nodes"][k]["op"] != "arg":
@@ -929,6 +933,28 @@ def run(ck: core.Check):
                               f"program #{meta[0]} style={meta[1]} rseed={meta[2]}")
         prev = (o, meta)
 
+    # --- round 7: sequence-taking constructors outside the abstract vocabulary, caller's list mutated afterwards
+    probe_hist = collections.Counter()
+    try:
+        from harness import lib_containers as LC
+
+        for pd in LC.all_probes(random.Random(rng.getrandbits(48))):
+            try:
+                pr = LC.run_probe(pd["probe"], pd["kind"], pd["opset"], pd["seed"])
+            except Exception as e:  # noqa: BLE001
+                ck.broken("correspondence", "C01 container probe could not be processed", f"{pd}: {type(e).__name__}: {e}")
+                continue
+            stats["builds"] += 1
+            if pr is None:
+                probe_hist[pd["probe"]] += 1
+            elif pr[0] == "skip":
+                notes["container-probe-unavailable"] += 1
+            else:
+                ck.failure(pr[0], pr[1] + " [container probe]", {"container_probe": pd})
+                stats["oracle_failures"] += 1
+    except Exception as e:  # noqa: BLE001
+        ck.broken("correspondence", "C01 container probes", f"{type(e).__name__}: {e}")
+
     # --- the listed finding, replayed on every run
     try:
         kf = run_case(LOOP_SCALAR_COND, "lazy", 1, [L.random_binding(LOOP_SCALAR_COND, random.Random(5))])
@@ -978,6 +1004,9 @@ def run(ck: core.Check):
                 "styles": dict(hist_style),
                 "opset_versions": dict(hist_opset),
                 "model_inputs_declared": dict(hist_dims),
+                "caller_owned_lists_handed_to_constructors": stats["caller_owned_containers"],
+                "caller_mutations_after_construction": dict(hist_mut),
+                "container_probes_passed": dict(probe_hist),
                 "emitted_nodes": stats["emitted_nodes"],
                 "emitted_graphs": stats["emitted_graphs"],
                 "unrequested_constructions": stats["unrequested_constructions"],
@@ -1011,6 +1040,16 @@ def run(ck: core.Check):
 
 def replay(ck: core.Check, doc) -> bool:
     case = doc["case"]
+    if case.get("container_probe"):
+        from harness import lib_containers as LC
+
+        pd = case["container_probe"]
+        pr = LC.run_probe(pd["probe"], pd["kind"], pd["opset"], pd["seed"])
+        if pr is not None and pr[0] != "skip":
+            print(f"{pr[0]}: {pr[1]}")
+            return True
+        print(f"container probe {pd}: {'not available in this tree' if pr else 'computes the dataflow as constructed'}")
+        return False
     prog = case["prog"]
     bindings = [L.binding_from_json(prog, b) for b in case["bindings"]]
     if case.get("variant"):
